@@ -121,7 +121,20 @@ where
                         continue;
                     }
                     case_log(k);
-                    work(k, &mut local);
+                    // a panic that escapes the monitor body (raised by the library in a call the monitor did not guard)
+                    // is still an observation about this case, not a reason to lose the whole run
+                    if let Err(p) = guarded(|| work(k, &mut local)) {
+                        local.violations.push(
+                            vcore::report::Violation::new(
+                                &local.property.clone(),
+                                "totality.panic",
+                                format!("case {k}: panic outside the guarded calls of the monitor at {}:{}: {} (re-run with VERIF_ONLY_CASE={k})", p.file, p.line, p.message),
+                                None,
+                                serde_json::json!({"case_number": k, "file": p.file, "line": p.line, "message": p.message}),
+                            )
+                            .with_signature(&p.signature()),
+                        );
+                    }
                 };
                 #[cfg(feature = "par")]
                 {
@@ -300,7 +313,9 @@ pub fn cell_tol(cell: &ConvexCell<WithoutFaces>, s: &Scales) -> CellTol {
     };
     t.tol_a = t.delta * perim_like + rel * s.ascale;
     t.tol_am = t.tol_a * s.m.max(s.l) * 2.;
-    t.ill = !(t.delta <= ill_threshold() * s.l);
+    // the sum grows with the number of vertices: beyond 64 vertices the threshold scales with the size of the cell, so that
+    // a giant cell with thousands of well-conditioned vertices still gets the metric comparisons
+    t.ill = !(t.delta <= ill_threshold() * s.l * (cell.vertices.len() as f64 / 64.).max(1.));
     t
 }
 
@@ -417,6 +432,20 @@ pub fn digest_voronoi(v: &Voronoi) -> Digest {
     d.usize(v.cell_face_connections().len());
     for &i in v.cell_face_connections() {
         d.usize(i);
+    }
+    // the neighbour iterator of every cell (the only place where the generator index recorded by a cell, also by an
+    // unconstructed one, is observable)
+    let nb = catch_unwind(AssertUnwindSafe(|| v.cells().iter().map(|c| c.neighbour_ids(v).collect::<Vec<usize>>()).collect::<Vec<_>>()));
+    match nb {
+        Ok(lists) => {
+            for l in lists {
+                d.usize(l.len());
+                for i in l {
+                    d.usize(i);
+                }
+            }
+        }
+        Err(_) => d.byte(0xEE),
     }
     d
 }
